@@ -13,7 +13,7 @@ import tempfile
 def main():
     sys.path.insert(0, os.path.dirname(os.path.dirname(os.path.abspath(__file__))))
     from tsim import cases
-    d = tempfile.mkdtemp(prefix='tsim-hw-')
+    d = tempfile.mkdtemp(prefix='tsim-hw-', dir=os.environ.get('TSIM_TMPROOT') or None)
     real_out = sys.stdout
     sys.stdout = open(os.devnull, 'w')
     try:
